@@ -150,6 +150,9 @@ package stanza
 //@   emit PacketRead(pk) when err == nil
 //@   emit StanzaRead(pk) when err == nil && isStanzaPk(pk)
 //@   emit AckReqRead(pk) when err == nil && typeof(pk) == SMRequest
+//@   emit StreamErrRead(pk) when err == nil && typeof(pk) == StreamError
 //@   ensures typeof(pk) == *IQ ==> pk.(*IQ) != nil
+//@   ensures err == nil ==> fresh(pk)
 //@   ensures [C02.total.result] (err == nil) == (pk != nil)
 //@   bounded
+//@ event StreamErrRead(pk Iface)
